@@ -130,6 +130,12 @@ ERROR_AFFIX_REQUIRES_SCALAR = ErrorMessage(
     """Increment/decrement requires a scalar, got '{}'.""",
 )
 
+ERROR_INVALID_CONSTRUCTOR_ARGUMENTS = ErrorMessage(
+    2012,
+    Severity.ERROR,
+    """Cannot construct '{}' from arguments of type: {}.""",
+)
+
 ERROR_AMBIGUOUS_FUNCTION_CALL = ErrorMessage(
     2101, Severity.ERROR, """Ambiguous function call: '{}'."""
 )
